@@ -304,6 +304,7 @@ type Client struct {
 // Concurrent access is invalid.
 type clientTransaction struct {
 	id      transactionID
+	gen     uint32 // incremented on every recycling, see Client.release
 	attempt int32
 	calls   int32
 	h       Handler
@@ -331,6 +332,7 @@ func acquireClientTransaction() *clientTransaction {
 }
 
 func putClientTransaction(t *clientTransaction) {
+	t.gen++
 	t.raw = t.raw[:0]
 	t.start = time.Time{}
 	t.attempt = 0
@@ -615,11 +617,13 @@ func (c *Client) delete(id transactionID) {
 
 // release unregisters transaction t if it is still the one registered for id
 // and reports whether it was. Only the caller that gets true may complete and
-// recycle t; on false another event has already taken it.
-func (c *Client) release(id transactionID, t *clientTransaction) bool {
+// recycle t; on false another event has already taken it. gen is t.gen as
+// seen while the caller owned t: the pooled object may meanwhile have been
+// recycled and registered again for a new transaction with the same id.
+func (c *Client) release(id transactionID, t *clientTransaction, gen uint32) bool {
 	c.mux.Lock()
 	defer c.mux.Unlock()
-	if current, ok := c.t[id]; ok && current == t {
+	if current, ok := c.t[id]; ok && current == t && current.gen == gen {
 		delete(c.t, id)
 
 		return true
@@ -669,6 +673,7 @@ func (c *Client) handleAgentCallback(event Event) { //nolint:cyclop
 		now     = c.clock.Now()
 		timeOut = transaction.nextTimeout(now)
 		id      = transaction.id
+		gen     = transaction.gen
 	)
 	// Starting client transaction.
 	if startErr := c.start(transaction); startErr != nil {
@@ -684,7 +689,7 @@ func (c *Client) handleAgentCallback(event Event) { //nolint:cyclop
 	// (and recycled) concurrently by a response, a timeout or Close.
 	// Starting agent transaction.
 	if startErr := c.a.Start(id, timeOut); startErr != nil {
-		if !c.release(id, transaction) {
+		if !c.release(id, transaction, gen) {
 			return
 		}
 		event.Error = startErr
@@ -696,7 +701,7 @@ func (c *Client) handleAgentCallback(event Event) { //nolint:cyclop
 	// Writing message to connection again.
 	_, writeErr := c.c.Write(buff.buf)
 	if writeErr != nil {
-		if !c.release(id, transaction) {
+		if !c.release(id, transaction, gen) {
 			// Completed concurrently while the write was in progress: the
 			// transaction is not ours anymore, its handler has been called.
 			return
@@ -731,10 +736,14 @@ func (c *Client) Start(msg *Message, handler Handler) error {
 	if closed {
 		return ErrClientClosed
 	}
-	var t *clientTransaction
+	var (
+		t   *clientTransaction
+		gen uint32
+	)
 	if handler != nil {
 		// Starting transaction only if h is set. Useful for indications.
 		t = acquireClientTransaction()
+		gen = t.gen
 		t.id = msg.TransactionID
 		t.start = c.clock.Now()
 		t.h = handler
@@ -747,7 +756,7 @@ func (c *Client) Start(msg *Message, handler Handler) error {
 			return err
 		}
 		if err := c.a.Start(msg.TransactionID, d); err != nil {
-			if !c.release(msg.TransactionID, t) {
+			if !c.release(msg.TransactionID, t, gen) {
 				// Already completed through its handler, see below.
 				return nil
 			}
@@ -757,7 +766,7 @@ func (c *Client) Start(msg *Message, handler Handler) error {
 	}
 	_, err := msg.WriteTo(c.c)
 	if err != nil && handler != nil {
-		if !c.release(msg.TransactionID, t) {
+		if !c.release(msg.TransactionID, t, gen) {
 			// The transaction was completed concurrently (response, timeout
 			// or Close) and its handler has been called: reporting the failed
 			// write as well would make the caller handle it twice.
